@@ -165,6 +165,46 @@ def check_redundant_fields(case):
     return None
 
 
+STANDARD_DATE_LETTERS = {"date": "dDR", "datetime": "oOrRsSfFgG"}
+
+
+def check_standard_with_calendar(case):
+    """standard (one-letter) patterns with a template value in another calendar - created with the template, or moved
+    there by with_calendar / with_template_value: a value of that calendar that is written and read back comes back
+    as the same value IN THAT CALENDAR (C07; calendar is part of the value)"""
+    P, T = _P(), _T()
+    kind, letter, cal_id = case
+    cal = P.CalendarSystem.for_id(cal_id)
+    inv = _cultures()[0]
+    y = min(max(cal.min_year + 1, 1400 if cal.max_year >= 1400 else 100), cal.max_year - 1)
+    if kind == "date":
+        PT, tmpl = T.LocalDatePattern, P.LocalDate(y, 1, 1, cal)
+        vals = [P.LocalDate(y, m, d, cal) for m, d in ((1, 1), (2, 15), (cal.get_months_in_year(y), 1))]
+    else:
+        PT, tmpl = T.LocalDateTimePattern, P.LocalDateTime(y, 1, 1, 0, 0, 0, calendar=cal)
+        vals = [P.LocalDateTime(y, m, d, 13, 45, 0, calendar=cal) for m, d in ((1, 1), (2, 15), (cal.get_months_in_year(y), 1))]  # f and g write no seconds
+    makers = [("create(letter, culture, template)", lambda: PT.create(letter, inv, tmpl)),
+              ("create(letter).with_calendar(cal)", lambda: PT.create_with_invariant_culture(letter).with_calendar(cal)),
+              ("create(letter).with_template_value(template)", lambda: PT.create_with_invariant_culture(letter).with_template_value(tmpl))]
+    for how, mk in makers:
+        try:
+            pat = mk()
+        except Exception:  # noqa: BLE001
+            continue
+        for v in vals:
+            try:
+                txt = pat.format(v)
+            except Exception:  # noqa: BLE001
+                continue
+            r = pat.parse(txt)
+            if r.success and (r.value != v or r.value.calendar != cal):
+                return {"key": "roundtrip-standard-pattern-other-calendar", "what": f"{kind} pattern {letter!r} via {how}, calendar {cal.id}: {v!r} is written {txt!r} "
+                        f"and read back as {r.value!r} in calendar {r.value.calendar.id}"}
+            if not r.success and letter in "RoOrsS" and cal_id in ("ISO", "Gregorian", "Julian", "Coptic"):
+                return {"key": "roundtrip-standard-pattern-other-calendar", "what": f"{kind} pattern {letter!r} via {how}, calendar {cal.id}: its own text {txt!r} is rejected: {r.exception}"}
+    return None
+
+
 def check_bclformat(case):
     P, T = _P(), _T()
     from pyoda_time._compatibility._culture_info import CultureInfo
@@ -428,6 +468,11 @@ def cases_c07(ctx):
         text = rng.choice(["HH:mm", "mm:ss", "hh:mm tt", "ss", "HH", "h tt"] if kind == "time" else ["MM-dd", "MMMM", "dd", "MMM dd", "MM"])
         simple.append((kind, text, rng.randint(0, 3), rng.randint(0, 10**6)))
     return mod, bcl, simple
+
+
+def cases_c07_standard_calendars(ctx):
+    P = _P()
+    return [(k, ch, cid) for k, letters in STANDARD_DATE_LETTERS.items() for ch in letters for cid in P.CalendarSystem.ids]
 
 
 def cases_c08(ctx):
